@@ -276,11 +276,7 @@ impl Compiler {
                     // Collect remaining elements into an array
                     // This exhausts the iterator, so no need to close it
                     let rest_arr = self.builder.alloc_register()?;
-                    self.builder.emit(Op::CreateRestArray {
-                        dst: rest_arr,
-                        iterator: iter_reg,
-                        start_index: i as u8,
-                    });
+                    self.compile_array_pattern_rest(iter_reg, done_reg, rest_arr, i as u8);
                     self.compile_pattern_binding(&rest.argument, rest_arr, mutable, is_var)?;
                     self.builder.free_register(rest_arr);
                     iterator_exhausted = true;
@@ -353,6 +349,32 @@ impl Compiler {
         if let Some(dst) = value {
             self.builder.emit(Op::LoadUndefined { dst });
         }
+        self.builder.patch_jump(taken);
+    }
+
+    /// The rest element of an array pattern: the remaining values of the
+    /// iterator as an array. An iterator that has already reported done is
+    /// not asked again; its rest is empty.
+    fn compile_array_pattern_rest(
+        &mut self,
+        iter_reg: Register,
+        done_reg: Register,
+        rest_arr: Register,
+        start_index: u8,
+    ) {
+        let already_done = self.builder.emit_jump_if_true(done_reg);
+        self.builder.emit(Op::CreateRestArray {
+            dst: rest_arr,
+            iterator: iter_reg,
+            start_index,
+        });
+        let taken = self.builder.emit_jump();
+        self.builder.patch_jump(already_done);
+        self.builder.emit(Op::CreateArray {
+            dst: rest_arr,
+            start: rest_arr,
+            count: 0,
+        });
         self.builder.patch_jump(taken);
     }
 
@@ -572,11 +594,7 @@ impl Compiler {
             if let Some(pattern) = elem {
                 if let Pattern::Rest(rest) = pattern {
                     let rest_arr = self.builder.alloc_register()?;
-                    self.builder.emit(Op::CreateRestArray {
-                        dst: rest_arr,
-                        iterator: iter_reg,
-                        start_index: i as u8,
-                    });
+                    self.compile_array_pattern_rest(iter_reg, done_reg, rest_arr, i as u8);
                     self.compile_pattern_assignment(&rest.argument, rest_arr)?;
                     self.builder.free_register(rest_arr);
                     iterator_exhausted = true;
